@@ -12,16 +12,25 @@ from ..common.bitsutil import Bits, mk_bits
 
 PID = 'C04'
 DRIVERS = ['bits']
-MODULE = 'PymtlVerif.Props.C04'
+MODULE = ['PymtlVerif.Props.C04', 'PymtlVerif.Props.C04Gen']
 THEOREMS = ['PV.C04.' + t for t in [
   'tables', 'add_spec', 'sub_spec', 'mul_spec', 'div_spec', 'bitwise_spec', 'invert_spec', 'invert_testBit',
   'shift_spec', 'cmp_spec', 'cmpRaw_spec', 'width_mismatch', 'int_operand', 'reflected', 'reflected_out_of_range',
   'ctor_spec', 'ctor_value', 'ctor_bad_width', 'ctor_from_bits', 'assign_spec', 'nb_assign_spec',
   'binRaw_lt', 'range_invariant_binop', 'range_invariant_rbinop', 'range_invariant_cmp', 'range_invariant_ctor',
   'range_invariant_assign', 'range_invariant_invert', 'int_signed']]
+# generated-from-source = model (Props/C04Gen.lean; Gen/BitsGen.lean is regenerated from /repo by pregen below)
+GEN_THEOREMS = ['PV.C04Gen.gen_' + t + '_eq' for t in [
+  'upperTab', 'lowerTab', 'tabLen', 'init', 'imatmul', 'ilshift', 'flip',
+  'add', 'sub', 'mul', 'and', 'or', 'xor', 'floordiv', 'mod', 'lshift', 'rshift',
+  'radd', 'rsub', 'rmul', 'rand', 'ror', 'rxor', 'rfloordiv', 'rmod',
+  'eq', 'ne', 'lt', 'le', 'gt', 'ge', 'invert', 'bool', 'dunder_int', 'int', 'uint', 'index']]
+THEOREMS = THEOREMS + GEN_THEOREMS
+THEOREM_MODULE = {t: 'PymtlVerif.Props.C04Gen' for t in GEN_THEOREMS}
 TRUSTED = [
   'Model/Bits.lean follows PythonBits.py method by method; `x & _upper[n]` on Python ints is modelled as `% 2^n` on Int',
   'operand dispatch (try .nbits / except AttributeError / int()) modelled as a three-way split on the operand kind',
+  'tools/py2lean_bits.py (translator, trusted to render its Python subset faithfully): straight-line int code (+ - * // % & | ^ ~ << >>, comparisons, and/or/not, conditional expressions, int()/abs()/isinstance, _upper/_lower table reads), if/assert/raise/return, try/except resolved statically per operand kind (Bits / int / other; None / int bound; unset _next), for over *args and fuel-bounded while; Python ints as Lean Int through Gen/PyInt.lean (pyAnd, pyOr, pyXor, pyNot, pyShl, pyShr, pyFloorDiv, pyMod: trusted statements of the Python operators); implicit raises (ZeroDivisionError, negative shift count, table IndexError) are emitted as guards; exception messages are not evaluated; a raise ValueError under an `if` that reads `.nbits` is Err.width, any other Err.range (both are ValueError); `bN(v)` is read as `Bits(N, v)`; int() of a non-Bits, non-int operand raises TypeError; anything outside the subset makes the translator fail (broken obligation), never guess',
 ]
 ASSUMPTIONS = [
   'pure-Python Bits implementation (the optional mamba C extension is absent in this sandbox)',
@@ -29,6 +38,15 @@ ASSUMPTIONS = [
 ]
 RULE = ('operator x operand-form x width x boundary-biased operands drawn from one PRNG; a case is non-trivial when the '
         'result is an ok value with both operands non-zero, or an error; distinct = distinct canonical case tuple')
+
+def pregen(ck):
+  """translator-based tie: regenerate lean/PymtlVerif/Gen/BitsGen.lean from the current PythonBits.py / helpers.py
+  (written only if its content changed); Props/C04Gen.lean then re-proves generated = model"""
+  import importlib.util, os
+  path = os.path.join(leanio.VERIF, 'tools', 'py2lean_bits.py')
+  spec = importlib.util.spec_from_file_location('py2lean_bits', path)
+  mod = importlib.util.module_from_spec(spec); spec.loader.exec_module(mod)
+  return mod.pregen()
 
 def gen_opnd(rng, n):
   """right operand for a Bits of width n"""
